@@ -15,6 +15,7 @@ import (
 	"harness/fp"
 	"harness/model"
 	"harness/sim"
+	"harness/unpack"
 	"harness/varexp"
 	"harness/world"
 )
@@ -266,9 +267,18 @@ func treeCase(r *sim.R, k int) {
 
 // Run executes one E4 case.
 func Run(r *sim.R, k int) {
-	if r.T.Weighted([]int{1, 1}, "family") == 0 {
+	sched := func(op string, detail map[string]string, kinds bool, f func() (string, string, uint64)) {
+		schedules(r, k, op, detail, kinds, func() Outcome {
+			kind, data, shape := f()
+			return Outcome{Kind: kind, Data: data, Shape: shape}
+		})
+	}
+	switch r.T.Weighted([]int{3, 3, 2}, "family") {
+	case 0:
 		treeCase(r, k)
-	} else {
+	case 2:
+		unpack.OrderCase(r, sched, ErrKind)
+	default:
 		varexp.OrderCase(r, k, func(op string, detail map[string]string, kinds bool, f func() (string, string, uint64)) {
 			schedules(r, k, op, detail, kinds, func() Outcome {
 				kind, data, shape := f()
